@@ -346,8 +346,12 @@ class Gen:
         def assign(ind):
             t = r.choice(vs)
             if kind == "int" and r.random() < 0.4:
-                return f"{ind}{t} += {r.choice(('1', '2', r.choice(vs)))}"
+                # every augmented operator the subset has, the non-commutative one included
+                op = r.choice(("+=", "+=", "-=", "^=", "&=", "|="))
+                return f"{ind}{t} {op} {r.choice(('1', '2', r.choice(vs)))}"
             if kind == "bool" and r.random() < 0.3:
+                if r.random() < 0.5:
+                    return f"{ind}{t} {r.choice(('^=', '&=', '|='))} {r.choice(vs)}"
                 return f"{ind}{t} = not {t}"
             return f"{ind}{t} = {e(1)}"
         for _ in range(r.choice((2, 3, 3, 4))):
